@@ -21,13 +21,16 @@ Rec == ndJsonDeserialize(IOEnv.TRACE)
 
 \* xm: the matching configuration of the run (Reset line): pairs <<reader, writer id of topic>> that the rig
 \* matched in addition (writers of the second remote participant), see SecGateSem
-VARIABLES l, run, rtps, xm, viol
-tvars == <<l, run, rtps, xm, viol>>
+\* rtps, disc, live: what the DOMAIN rule of the run's governance document requires (Reset line): RTPS message
+\* protection; the discovery / liveliness protection kinds "N" | "S" | "E" (submessage protection of the builtin
+\* secure endpoints)
+VARIABLES l, run, rtps, disc, live, xm, viol
+tvars == <<l, run, rtps, disc, live, xm, viol>>
 
-TraceInit == l = 1 /\ run = 0 /\ rtps = FALSE /\ xm = {} /\ viol = {}
+TraceInit == l = 1 /\ run = 0 /\ rtps = FALSE /\ disc = "E" /\ live = "E" /\ xm = {} /\ viol = {}
 
 Msg(e) ==
-  LET m   == [rtps |-> rtps, xm |-> xm, first |-> e.first, src |-> e.src, wraps |-> e.wraps, els |-> e.els]
+  LET m   == [rtps |-> rtps, disc |-> disc, live |-> live, xm |-> xm, first |-> e.first, src |-> e.src, wraps |-> e.wraps, els |-> e.els]
       del == ToSet(e.delivered)
       hbSeen(p) == \E q \in del : q[2] = p[2] /\ q[1] >= p[1] /\ KnownId(m, q[1]) /\ ItemOf(m, q[1]).kind = "HB"
       flows(p)  == p \in del \/ (ItemOf(m, p[1]).kind = "HB" /\ hbSeen(p))
@@ -45,8 +48,9 @@ Msg(e) ==
 Step ==
   /\ l <= Len(Rec)
   /\ LET e == Rec[l] IN
-       CASE e.ev = "Reset" -> /\ run' = e.run /\ rtps' = e.rtps /\ xm' = ToSet(e.xm) /\ viol' = {}
-         [] e.ev = "Msg"   -> /\ viol' = viol \cup Msg(e) /\ UNCHANGED <<run, rtps, xm>>
+       CASE e.ev = "Reset" -> /\ run' = e.run /\ rtps' = e.rtps /\ disc' = e.disc /\ live' = e.live
+                              /\ xm' = ToSet(e.xm) /\ viol' = {}
+         [] e.ev = "Msg"   -> /\ viol' = viol \cup Msg(e) /\ UNCHANGED <<run, rtps, disc, live, xm>>
   /\ l' = l + 1
   /\ (viol' # viol /\ viol' # {}) =>
         PrintT("VIOL line=" \o ToString(l) \o " run=" \o ToString(run') \o " clauses=" \o ToString(viol' \ viol))
